@@ -202,11 +202,21 @@ pub fn accuracy(ctx: &Ctx, rep: &mut Report) {
                 }
             }
         }
+        // complex-valued inputs of every "almost real" degree
+        for eps in [1e-12f64, 1e-10, 3e-9, 1e-8, 5e-8, 1e-7, 2e-7, 1e-6, 1e-4, 1e-2, 1.0] {
+            for _ in 0..ctx.sz(4, 200) {
+                let a: Vec<i64> = (0..n).map(|_| rng.gen_range(-16384i64..=16384)).collect();
+                let b: Vec<i64> = (0..n).map(|_| rng.gen_range(-1024i64..=1024)).collect();
+                check_complex(&a, &b, eps, rep);
+                rep.count("complex_valued_inputs", 1);
+            }
+        }
         rep.count("sizes", 1);
         rep.nontrivial(format!("n|{}", n).as_bytes());
     });
     rep.merge(r);
     rep.require("sizes", 10);
+    rep.require("complex_valued_inputs", 200);
     rep.require("products_with_a_tiny_coefficient", 20);
     rep.sample(json!({"sizes": "2..1024", "magnitudes": "|a_i| <= 2^14, |b_i| <= 2^10", "worst_product_rel": rep.stats.get("worst_product_rel"), "tolerance": TOL}));
 }
@@ -249,6 +259,47 @@ fn history_op(op: u32, a: &[i64], b: &[i64], hist: &str, rep: &mut Report) {
             rep.stat_max("worst_history_rel", e / scale);
             if !(e <= TOL * scale) {
                 rep.violation(sig, format!("operation {} at n={} inside a call history ({}) is off by {:e} (scale {:e})", ["split", "inverse(forward)", "merge", "product"][op as usize], n, hist, e, scale), replay());
+            }
+        }
+    }
+}
+
+/// COMPLEX-valued inputs: a real polynomial plus an imaginary part of relative size eps
+/// (1e-12 .. 1): the spectrum is then nearly, but not exactly, conjugate-symmetric. split
+/// against the transforms of the even / odd parts, merge(split(F)) against F, inverse(forward).
+fn check_complex(a: &[i64], b: &[i64], eps: f64, rep: &mut Report) {
+    rep.evaluations += 1;
+    let n = a.len();
+    let ac: Vec<(f64, f64)> = (0..n).map(|i| (a[i] as f64, eps * b[i] as f64 * 16.0)).collect();
+    let na = ac.iter().map(|x| x.0 * x.0 + x.1 * x.1).sum::<f64>().sqrt().max(1e-300);
+    let replay = || json!({"kind": "complex", "a": a, "b": b, "eps": eps});
+    let ev: Vec<(f64, f64)> = (0..n / 2).map(|i| ac[2 * i]).collect();
+    let od: Vec<(f64, f64)> = (0..n / 2).map(|i| ac[2 * i + 1]).collect();
+    let dist = |x: &[(f64, f64)], y: &[(f64, f64)]| x.iter().zip(y.iter()).map(|(p, q)| (p.0 - q.0).abs().max((p.1 - q.1).abs())).fold(0.0, f64::max);
+    let ac2 = ac.clone();
+    let r = monitored(move || {
+        let fa = vh::cfft(&ac2);
+        let (f0, f1) = vh::csplit(&fa);
+        let m = vh::cmerge(&f0, &f1);
+        let back = vh::cifft(&fa);
+        (fa, f0, f1, m, back, vh::cfft(&ev), vh::cfft(&od))
+    });
+    match r {
+        Err(p) => rep.violation(&format!("panic:fft-complex@{}", short_loc(&p.location)), format!("n={} eps={:e}: {}", n, eps, p.message), replay()),
+        Ok((fa, f0, f1, m, back, fe, fo)) => {
+            let nf = fa.iter().map(|x| x.0 * x.0 + x.1 * x.1).sum::<f64>().sqrt().max(1e-300);
+            let e_split = dist(&f0, &fe).max(dist(&f1, &fo));
+            let e_merge = dist(&m, &fa);
+            let e_back = dist(&back, &ac);
+            rep.stat_max("worst_complex_split_rel", e_split / (na * ((n / 2) as f64).sqrt().max(1.0)));
+            if !(e_split <= TOL * na * ((n / 2) as f64).sqrt().max(1.0)) {
+                rep.violation("fft:split", format!("split(fft(a)) differs from (fft(a_even), fft(a_odd)) by {:e} for a complex-valued a with imaginary parts of relative size {:e}, n={}", e_split, eps, n), replay());
+            }
+            if !(e_merge <= TOL * nf) {
+                rep.violation("fft:merge-split", format!("merge(split(F)) differs from F by {:e} (|F| = {:e}) for a nearly conjugate-symmetric F (eps {:e}), n={}", e_merge, nf, eps, n), replay());
+            }
+            if !(e_back <= TOL * na) {
+                rep.violation("fft:roundtrip", format!("ifft(fft(a)) differs from a by {:e} for a complex-valued a (eps {:e}), n={}", e_back, eps, n), replay());
             }
         }
     }
@@ -412,6 +463,11 @@ pub fn cross_size(ctx: &Ctx, rep: &mut Report) {
 pub fn replay(r: &Value) -> bool {
     let mut rep = Report::new();
     match r["kind"].as_str().unwrap_or("") {
+        "complex" => {
+            let a: Vec<i64> = r["a"].as_array().unwrap().iter().map(|x| x.as_i64().unwrap()).collect();
+            let b: Vec<i64> = r["b"].as_array().unwrap().iter().map(|x| x.as_i64().unwrap()).collect();
+            check_complex(&a, &b, r["eps"].as_f64().unwrap_or(1e-8), &mut rep);
+        }
         "history" => {
             // "seed S history H: ..."
             let h = r["history"].as_str().unwrap_or("");
